@@ -3,11 +3,75 @@
    first-free-slot insertion, grow / shrink / clear with per-table hash seeds).  The implementation is
    replayed on it call by call (results, how often the update function ran and what it saw, size,
    table length, per-bucket chain length and occupancy, exact iteration order), through growth to
-   hundreds of buckets and back.  Concurrent behaviour (lookups / updates / iteration during resizes)
-   is checked by implementation oracles only.  Proved here: the SWAR byte search has no false
-   negatives, for every 64-bit word and byte position; C15_seq_refines_map (the model is a finite map
-   for all operation sequences) is not yet a Coq theorem. *)
-From Otter Require Import Base HashMap HashMapFacts.
+   hundreds of buckets and back.
+
+   Proved here (theories/HashMapBytes.v, HashMapRefine.v), for EVERY hash function (one per table
+   generation, no assumption on it), every initial table length and every sequence of Get / Compute
+   (keep, set, delete, for present and absent keys) / Clear:
+     - C15_seq_refines_map: the table answers exactly like a finite map (a function from keys to
+       optional values): every Get and the argument every update function sees are the map's, the
+       function runs once, and the loop that retries after growing always terminates within its fuel;
+     - C15_iteration_exact: in every reachable state iteration yields every binding of the map exactly
+       once (no duplicate key, nothing lost, nothing stale) and the size counter equals their number;
+     - C15_resize_keeps_everything: growing, shrinking (re-hashing every entry under the new table's
+       seed into chains built by appendToBucket) keeps exactly the bindings; clearing leaves none.
+   Underneath: the SWAR byte search has no false negatives and, restricted to the five slot bytes,
+   visits marked slots in increasing order; setByte/getByte/broadcast byte algebra; a key is stored
+   at most once, in the chain its hash selects, under a meta byte equal to its hash byte.
+   Concurrent behaviour (lookups / updates / iteration during a resize) is checked by implementation
+   oracles only; the atomicity of Get/Compute that C02 assumes is not proved. *)
+From Otter Require Import Base HashMap HashMapFacts HashMapBytes HashMapRefine.
+From Coq Require Import Permutation.
+
+Theorem C15_seq_refines_map : forall hashf n ops,
+  1 <= n -> Z.of_nat (length ops) <= 2 ^ 63 ->
+  mrun hashf (hmap_new n) ops = srun (fun _ => None) ops.
+Proof.
+  intros hashf n ops Hn Hl. destruct (rel_new hashf n Hn) as [HR Hsz].
+  exact (proj1 (run_refines hashf ops _ _ 0 HR ltac:(lia) ltac:(lia))).
+Qed.
+Print Assumptions C15_seq_refines_map.
+
+Theorem C15_iteration_exact : forall hashf n ops,
+  1 <= n -> Z.of_nat (length ops) <= 2 ^ 63 ->
+  let m := mfinal hashf (hmap_new n) ops in
+  let s := sfinal (fun _ => None) ops in
+  NoDup (map fst (hmap_range m)) /\ (forall k v, In (k, v) (hmap_range m) <-> s k = Some v) /\
+  hsize m = Z.of_nat (length (hmap_range m)).
+Proof.
+  intros hashf n ops Hn Hl. destruct (rel_new hashf n Hn) as [HR Hsz].
+  exact (rel_range hashf _ _ (proj2 (run_refines hashf ops _ _ 0 HR ltac:(lia) ltac:(lia)))).
+Qed.
+Print Assumptions C15_iteration_exact.
+
+Theorem C15_resize_keeps_everything : forall hashf n ops h,
+  1 <= n -> Z.of_nat (length ops) <= 2 ^ 63 ->
+  let m := mfinal hashf (hmap_new n) ops in
+  HInv hashf (hmap_resize hashf m h) /\
+  Permutation (hmap_range (hmap_resize hashf m h)) (match h with Clear => [] | _ => hmap_range m end).
+Proof.
+  intros hashf n ops h Hn Hl. destruct (rel_new hashf n Hn) as [HR Hsz].
+  apply resize_spec. exact (proj1 (proj2 (run_refines hashf ops _ _ 0 HR ltac:(lia) ltac:(lia)))).
+Qed.
+Print Assumptions C15_resize_keeps_everything.
+
+(* one Compute in any state satisfying the invariant: the function sees the current binding, the
+   table afterwards holds exactly the other bindings plus the function's result *)
+Theorem C15_compute_exact : forall hashf m key f,
+  HInv hashf m -> hsize m <= 2 ^ 63 -> final_post hashf m key f (hmap_compute hashf m key f).
+Proof. exact compute_spec. Qed.
+Print Assumptions C15_compute_exact.
+
+Theorem C15_get_exact : forall hashf m key,
+  HInv hashf m ->
+  match hmap_get hashf m key with
+  | Some v => In (key, v) (hmap_range m)
+  | None => forall v, ~ In (key, v) (hmap_range m)
+  end.
+Proof. exact get_spec. Qed.
+Print Assumptions C15_get_exact.
+
+
 
 (* markZeroBytes marks every zero byte of every 64-bit word: a slot whose meta byte equals the
    broadcast hash byte is always visited (false positives are filtered by the key comparison) *)
